@@ -10,8 +10,11 @@ ASSUMPTIONS = [
     "the theorems quantify over arbitrary tables per block, which includes every reachable history of stake/unstake/withdraw/penalty transactions",
     "pop order of container/heap among equal powers is not modelled: theorems hold for every election satisfying valid_election; "
     "the correspondence is exact when eligible powers are distinct and modulo the implementation's (checked) choice otherwise",
-    "hypotheses of C10_accepted (each searched for on the implementation): record address = address of the record's consensus key; "
-    "at least one eligible candidate and top count >= 1; 1 <= minimum self delegation < 2^63; per-key power caps summing to <= MaxInt64/8",
+    "C10_accepted_reachable assumes: the genesis records are keyed by the address of their consensus key (the genesis loader calls "
+    "HandleStake without the handler's check; afterwards it is an invariant, proved in C10_records_keyed and monitored on every block); "
+    "the list of record operations in Election.v (stake, unstake/penalty, rewrite, delete) covers every writer of v_ records "
+    "(ValidatorStore.set is called by HandleStake and HandleUnstake only); at least one eligible candidate and top count >= 1; "
+    "1 <= minimum self delegation < 2^63; per-key power caps summing to <= MaxInt64/8 (each searched for on the implementation)",
     "hypothesis of C10_converges (searched for): every member of the Tendermint validator set still has a validator record",
     "Tendermint.v's total-power test uses the final total instead of verifyUpdates' running total over delta-sorted updates "
     "(equivalent when the current set is within the bound); validated against the real ValidatorSet on every run",
@@ -19,11 +22,11 @@ ASSUMPTIONS = [
     "the correspondence (histories with evidence) confirms it has no effect on the updates",
 ]
 
-ACC_TRIGGERS = {1: "C10.duplicate_pubkey_stake", 2: "C10.no_eligible_candidate"}
-RULE_TRIGGERS = {1: "C10.frozen_elected_in_votes_window"}
+ACC_TRIGGERS = {2: "C10.no_eligible_candidate"}   # 1 (duplicate key) fixed by /repo 9246c8d: a violation now
+RULE_TRIGGERS = {}   # frozen-in-window fixed by /repo 304e1e1
 CONV_TRIGGERS = {1: "C10.member_without_record"}
 CRASH_TRIGGERS = {1: "C10.negative_power_record", 3: "C10.zero_total_power"}
-NCODES = 5
+NCODES = 6
 
 
 def run_harness(ctx, vh, shards, n, ntm, extra=None):
@@ -76,7 +79,7 @@ def evaluate(out_dir, cases, files, tfiles, cfiles=()):
 
 def payload(c, codes, what):
     return {"kind": what, "history_kind": c["kind"], "hseed": c["hseed"], "height": c["height"], "case": c,
-            "codes[mm,tm,acc,rule,conv]": codes, "how": "./check replay <this file>"}
+            "codes[mm,tm,acc,rule,conv,keyed]": codes, "how": "./check replay <this file>"}
 
 
 def judge(ctx, cases, codes, tcases, tres, crashed=(), cres=()):
@@ -89,10 +92,11 @@ def judge(ctx, cases, codes, tcases, tres, crashed=(), cres=()):
             found = True
             ctx.violation("crash_%d_h%d" % (c["hseed"], c["height"]), payload(c, [k], "node-exits-in-endblock-no-updates-returned"))
     for c, k in zip(cases, codes):
-        mm, tm, acc, rule, conv = k
+        mm, tm, acc, rule, conv, keyed = k
         for (code, table, what) in ((acc, ACC_TRIGGERS, "tendermint-rejects-validator-updates"),
                                     (rule, RULE_TRIGGERS, "update-violates-staking-rule"),
-                                    (conv, CONV_TRIGGERS, "active-set-does-not-converge-to-election")):
+                                    (conv, CONV_TRIGGERS, "active-set-does-not-converge-to-election"),
+                                    (keyed, {}, "record-address-is-not-the-address-of-its-key")):
             if code == 0:
                 continue
             if code in table and ctx.known_finding(table[code], what):
@@ -159,8 +163,12 @@ def run(ctx):
         "model_vs_impl[0 exact,1 modulo ties,2 skipped,3 mismatch]": hist(k[0] for k in codes),
         "tendermint_model_mismatches": sum(1 for k in codes if k[1]) + sum(1 for k in tres if k),
         "accept_monitor[0 ok,1 dup key,2 no eligible,3 other]": hist(k[2] for k in codes),
-        "rule_monitor[0 ok,1 frozen window,2 other]": hist(k[3] for k in codes),
+        "rule_monitor[0 ok,2 violated]": hist(k[3] for k in codes),
         "convergence_monitor[0 ok/na,1 member without record,2 other]": hist(k[4] for k in codes),
+        "keyed_records_monitor[0 ok,1 mismatch]": hist(k[5] for k in codes),
+        "rogue_stake_attempts_refused": sum(1 for c in cases for t in (c.get("txs") or []) if t.startswith("stake rogue") and " -> 0" not in t),
+        "rogue_stake_attempts_executed": sum(1 for c in cases for t in (c.get("txs") or []) if t.startswith("stake rogue") and " -> 0" in t),
+        "blocks_with_frozen_validator_in_votes_window": sum(1 for c in cases if c["frozen"] and c["height"] <= c["bvd"]),
         "convergence_checked_blocks": sum(1 for c in cases if c["quiet"] >= 5 and c["tm_ok"]),
         "record_stake_differs_from_delegation_store": len(own_diff),
         "blocks_where_node_exited[1 negative power record,3 zero total power,2 other]": hist(cres),
@@ -184,6 +192,6 @@ def replay(ctx, rp):
     for c, k in zip(crashed, cres):
         print("height", c["height"], "NODE EXITED in EndBlock; crash code", k, c.get("txs") or "")
     for c, k in zip(cases, codes):
-        print("height", c["height"], "codes[mm,tm,acc,rule,conv]", k, "updates", [(u["k"], u["v"]) for u in c["ups"]],
+        print("height", c["height"], "codes[mm,tm,acc,rule,conv,keyed]", k, "updates", [(u["k"], u["v"]) for u in c["ups"]],
               "tm_err", c.get("tm_err", ""), c.get("txs") or "")
     judge(ctx, cases, codes, tcases, tres, crashed, cres)
